@@ -69,6 +69,22 @@ def geo_tm(lat, lon, ell_ht, orth_ht, ellipsoid, projection):
         north = False
     return CoordTM(g[1], g[2], g[3], ell_ht, orth_ht, north, projection)
 
+def rnd(v, n):
+    if v is None:
+        return None
+    return round(v, n)
+
+def round_cart(x, y, z, nval, n):
+    if nval is None:
+        return CoordCart(round(x, n), round(y, n), round(z, n))
+    return CoordCart(round(x, n), round(y, n), round(z, n), round(nval, n))
+
+def round_geo(lat, lon, ell_ht, orth_ht, n):
+    return CoordGeo(round(lat, n), round(lon, n), rnd(ell_ht, n), rnd(orth_ht, n))
+
+def round_tm(zone, east, north, ell_ht, orth_ht, hemi_north, projection, n):
+    return CoordTM(zone, round(east, n), round(north, n), rnd(ell_ht, n), rnd(orth_ht, n), hemi_north, projection)
+
 def tm_geo(zone, east, north, ell_ht, orth_ht, hemi_north, projection, ellipsoid, notation):
     if hemi_north:
         h = 'north'
@@ -528,6 +544,38 @@ def delegation_rules(repo, rep, only=None):
         rep.floor('R-WIRE', 16, 'conversion methods x notations')
 
 
+def round_rules(repo, rep):
+    """round(coordinate, n) is the same coordinate with its numbers rounded: every other attribute (zone, hemisphere, projection) travels with
+    it, for each combination of present / absent heights - a rounded northern or ISG coordinate is still northern / ISG"""
+    base = 'R-WIRE::geodepy/coord.py::'
+    x, y, z, nv = Rat.sym('x'), Rat.sym('y'), Rat.sym('z'), Rat.sym('nval')
+    lat, lon, eh, oh = Rat.sym('lat'), Rat.sym('lon'), Rat.sym('ell_ht'), Rat.sym('orth_ht')
+    zone, east, north, hn = Rat.sym('zone'), Rat.sym('east'), Rat.sym('north'), Rat.sym('hemi_north')
+    n = Rat.sym('n')
+    for cname, fields, oname, oargs in (('CoordCart', dict(xaxis=x, yaxis=y, zaxis=z, nval=nv), 'round_cart', dict(x=x, y=y, z=z, nval=nv)),
+                                        ('CoordGeo', dict(lat=lat, lon=lon, ell_ht=eh, orth_ht=oh), 'round_geo', dict(lat=lat, lon=lon, ell_ht=eh, orth_ht=oh)),
+                                        ('CoordTM', dict(zone=zone, east=east, north=north, ell_ht=eh, orth_ht=oh, hemi_north=hn), 'round_tm',
+                                         dict(zone=zone, east=east, north=north, ell_ht=eh, orth_ht=oh, hemi_north=hn))):
+        cls = repo.cls('geodepy.coord', cname)
+        f = cls.methods.get('__round__')
+        if f is None:
+            continue
+        rep.analysed(f)
+        ev = mk_eval(repo)
+        kw = dict(fields)
+        okw = dict(oargs)
+        if cname == 'CoordTM':
+            kw['projection'] = sym_projection(ev, repo, 'projection')
+        me = sym_self(ev, repo, cname, **kw)
+        got = ev.call_function(f, {'self': me, f.params[1].name: n})
+        orc = Oracle(ORACLE, base=repo, opaque=set(CONV) | angle_opaque(repo))
+        if cname == 'CoordTM':
+            okw['projection'] = sym_projection(orc.ev, orc.repo, 'projection')
+        want = orc.call(oname, n=n, **okw)
+        compare_objs(rep, 'R-WIRE', base + cname + '.__round__', where(f, f.node), got, want,
+                     'round(%s, n) = the same coordinate with its numbers rounded to n places; zone, hemisphere and projection unchanged' % cname)
+
+
 def dispatch_rules(repo, rep):
     """6 source types x 6 target notations of CoordGeo.notation"""
     f = repo.func('geodepy.coord', 'CoordGeo.notation')
@@ -721,6 +769,7 @@ def run(repo, rep):
                 tr.check_const(c.methods[name])
     rep.floor('R-THREAD', 10, 'role-parameter call sites of the six conversion methods')
     delegation_rules(repo, rep)
+    round_rules(repo, rep)
     dispatch_rules(repo, rep)
     # the chain tm -> geo -> tm: the longitude CoordTM.geo() holds must be one CoordGeo.tm() (geo2grid) accepts
     common.longitude_range_rule(repo, rep)
